@@ -183,14 +183,28 @@ Definition clamp (d : details) : details :=
 Lemma nearby_len : Z.of_nat (length NEARBY_REGISTER_c) = 4.
 Proof. vm_compute. reflexivity. Qed.
 
-Lemma confidence_clamp d : confidence d = confidence (clamp d).
+Lemma flag_clamp d f : flag_of (clamp d) f = flag_of d f.
+Proof. destruct f; reflexivity. Qed.
+
+Lemma eval_step_clamp d s : eval_step (clamp d) s = eval_step d s.
 Proof.
-  unfold confidence, clamp. cbn [d_nc d_null d_low d_nearby d_poison]. rewrite nearby_len.
-  unfold NEARBY_GUARD, NEARBY_INDEX.
+  destruct s; cbn [eval_step]; rewrite ?flag_clamp; try reflexivity.
+  unfold clamp. cbn [d_nearby]. rewrite nearby_len. unfold NEARBY_GUARD, NEARBY_INDEX.
   destruct (d_nearby d >? 0) eqn:E1.
   - assert (E2 : (Z.max 0 (Z.min (d_nearby d) 4) >? 0) = true) by lia. rewrite E2.
     replace (Z.min (Z.max 0 (Z.min (d_nearby d) 4)) 4) with (Z.min (d_nearby d) 4) by lia. reflexivity.
   - assert (E2 : (Z.max 0 (Z.min (d_nearby d) 4) >? 0) = false) by lia. rewrite E2. reflexivity.
+Qed.
+
+Lemma post_clamp d l : forall r,
+  fold_left (fun ret fc => if flag_of (clamp d) (fst fc) then b32_mult mode_NE ret (f32c (snd fc)) else ret) l r =
+  fold_left (fun ret fc => if flag_of d (fst fc) then b32_mult mode_NE ret (f32c (snd fc)) else ret) l r.
+Proof. induction l as [|x t IH]; intros r; cbn [fold_left]; [reflexivity|]. rewrite flag_clamp. apply IH. Qed.
+
+Lemma confidence_clamp d : confidence d = confidence (clamp d).
+Proof.
+  unfold confidence. rewrite post_clamp. f_equal. f_equal.
+  apply flat_map_ext. intros s. symmetry. apply eval_step_clamp.
 Qed.
 
 Definition bools := [true; false].
